@@ -51,13 +51,16 @@ def coarse : Except Err Unit → String
 /-- the parsed text (`none`: not JSON) -/
 def readText (t : Bytes) : Option PVal := parse t
 
-/-- inside the gate of SignJSON / VerifyJSON (`strictJSON`) -/
+/-- inside the gate of VerifyJSON (`strictJSON`) -/
 def strictP (p : PVal) : Bool := p.wellFormed && p.noDupKeys
+
+/-- inside the gate of SignJSON (`signStrictJSON`: no UTF-8 clause) -/
+def signStrictP (p : PVal) : Bool := pairedOk p && p.noDupKeys
 
 /-- specification answer for a text the gate refuses: refusal is DEMANDED when the signed members themselves
     are ambiguous; ambiguity confined to `signatures` / `unsigned` is outside the property's text -/
-def specAmbiguous (p : PVal) (refusal : String) : String :=
-  if !Spec.definitePayload p then refusal else "unspecified:ambiguous-outside-the-signed-members"
+def specAmbiguous (definite : Bool) (refusal : String) : String :=
+  if !definite then refusal else "unspecified:ambiguous-outside-the-signed-members"
 
 def insertSorted (x : String) : List String → List String
   | [] => [x]
@@ -77,6 +80,11 @@ def handle (op : String) (args : Array String) : Option String :=
       match readText t with
       | none => some "err"
       | some p =>
+        -- SignJSON has no UTF-8 clause (PDU.Sign must not fail on events the constructors accept): on a text that passes
+        -- its gate but is not valid UTF-8 it behaves as before the K7 repair, which is outside the property (JSON texts
+        -- are Unicode) and outside this tie (the harness finds the signed payload through encoding/json, which rewrites
+        -- invalid UTF-8 in member names)
+        if signStrictP p && !strictP p then some "skip:sign-of-a-text-that-is-not-valid-utf8" else
         let v := p.toJVal
         let pay : Bytes := match v with
           | .obj o => payload o
@@ -88,7 +96,7 @@ def handle (op : String) (args : Array String) : Option String :=
           | .error (.panic s) => "panic:" ++ s
           | .error _ => "err"
         -- specification: what C02 demands of the signed object (only when signing is not refused)
-        let s := if !strictP p then specAmbiguous p "err" else match v, res with
+        let s := if !signStrictP p then specAmbiguous (Spec.definitePayloadSign p) "err" else match v, res with
           | .obj _, .error (.other _) => "unspecified:signing-refused"
           | .obj _, .error .badJSON => "unspecified:signing-refused"
           | .obj _, _ =>
@@ -120,7 +128,7 @@ def handle (op : String) (args : Array String) : Option String :=
         -- payload, and acceptance when there is one and `signatures` is a well-formed signature object
         let s :=
           if !strictP p then
-            (if expect == "ok" then "spec-mismatch:generator-expects-ok" else specAmbiguous p "rej")
+            (if expect == "ok" then "spec-mismatch:generator-expects-ok" else specAmbiguous (Spec.definitePayload p) "rej")
           else if expect == "ok" then (if a && wf then "ok" else "spec-mismatch:generator-expects-ok")
           else if expect == "rej" then (if !a then "rej" else "spec-mismatch:generator-expects-rej")
           else if !a then "rej" else if wf then "ok" else "unspecified:signatures-not-a-signature-map"
